@@ -103,8 +103,9 @@ def crash_site(err):
     return "died:" + (err.strip().split("\n")[-1][:80] if err.strip() else "no-output")
 
 
-def stream(ctx, name, cmd, model, lines, oracle, classify):
-    """differential (model != None) or exploration (model == None) stream"""
+def stream(ctx, name, cmd, model, lines, oracle, classify, project=None):
+    """differential (model != None) or exploration (model == None) stream;
+    `project(line, impl_out)` maps the implementation's observation to the part the model predicts"""
     if not lines:
         return
     t = time.time()
@@ -138,10 +139,12 @@ def stream(ctx, name, cmd, model, lines, oracle, classify):
         v = oracle(line, io)
         if v:
             hits.append((line, io, v))
-        if mod is not None and io != mod[i]:
+        if mod is not None and (project(line, io) if project else io) != mod[i]:
             ndis += 1
             if len(first_dis) < 50:
                 first_dis.append((line, io, mod[i]))
+        if mod is not None and (mod[i].startswith("ub:") or mod[i] in ("unmodelled", "bad-op")):
+            ctx.dist["model-outside-domain:" + line.split(" ")[0]] += 1
     step = max(1, len(lines) // 2)
     for i in range(0, len(lines), step):
         ctx.sample({"stream": name, "input": lines[i][:400], "impl": impl[i][:300]})
@@ -231,8 +234,8 @@ def gen_ck(ctx):
              2 ** 32, 2 ** 32 + 1, 2 ** 42 - 1, 2 ** 42, 2 ** 42 + 1, CK_GUARD - 1, CK_GUARD, CK_GUARD + 1,
              CK_GUARD + 2, CK_GUARD + 3, 2 ** 59, 2 ** 60 - 1, 2 ** 60, 2 ** 62, 2 ** 63 - 48, 2 ** 63 - 34,
              2 ** 63 - 33, 2 ** 63 - 32, 2 ** 63 - 17, 2 ** 63 - 3, 2 ** 63 - 2, 2 ** 63 - 1, 2 ** 63, 2 ** 64 - 1, 2 ** 64]
-    ins = [0, 1, 2, 30, 31, 32, 33, 65535, 65536, 65537, 2 ** 31, 2 ** 32, 2 ** 42, 2 ** 62, 2 ** 63 - 65537, 2 ** 63 - 2,
-           2 ** 63 - 1]
+    ins = [0, 1, 2, 30, 31, 32, 33, 65535, 65536, 65537, 2 ** 31, 2 ** 32, 2 ** 42, 2 ** 62, 2 ** 63 - 65537, 2 ** 63 - 66000,
+           2 ** 63 - 100]      # (bytes already received: bytes_in + the few data bytes of the case fits off_t)
     mss = [0, 0, 0, 1, 64, 4194303, 4294967295]
     exts = [b"", b"", b"", b";x=y", b" ", b"\t;q", b" x", b"g", b";\"a\""]
 
@@ -246,7 +249,7 @@ def gen_ck(ctx):
         line = hexs + ext + eol
         if rng.random() < 0.1 and line:
             i = rng.randrange(len(line))
-            line = line[:i] + bytes([rng.choice([0, 0x20, 0x67, 0x47, 0x2f, 0x3a, 0x60, 0x40, 0x0d, 0x0a])]) + line[i + 1:]
+            line = line[:i] + bytes([rng.choice([0x20, 0x67, 0x47, 0x2f, 0x3a, 0x60, 0x40, 0x0d, 0x0a, 0x3b, 0x09])]) + line[i + 1:]
         if b"\n" not in line:
             k = 0
         else:
@@ -392,18 +395,23 @@ def gen_buf(ctx):
     L = []
     big = [2 ** 20 - 1, 2 ** 20, 2 ** 24, 2 ** 30, 2 ** 31 - 130, 2 ** 31 - 65, 2 ** 31 - 64, 2 ** 31 - 63, 2 ** 31 - 2, 2 ** 31 - 1, 2 ** 31,
            2 ** 31 + 1, 2 ** 32 - 130, 2 ** 32 - 66, 2 ** 32 - 65, 2 ** 32 - 64, 2 ** 32 - 63, 2 ** 32 - 2, 2 ** 32 - 1, 2 ** 32, 2 ** 32 + 1,
-           2 ** 33, 2 ** 40, 2 ** 63, SIZEMAX - 64, SIZEMAX - 63, SIZEMAX - 1, SIZEMAX]
+           2 ** 33, 2 ** 40, SIZEMAX - 63, SIZEMAX - 1, SIZEMAX]     # (2^40 < len < SIZE_MAX-63: allocation failure, not arithmetic)
     small = [0, 1, 2, 31, 62, 63, 64, 65, 126, 127, 128, 191, 192, 254, 255, 256, 257, 1000, 4095, 4096, 65535, 65536]
     for v in small + big:
         L.append("buf R%d" % v)
-        L.append("buf p%d" % v)
+        if v != SIZEMAX:
+            L.append("buf p%d" % v)
         L.append("buf y%d" % v)
-        L.append("buf p10 c10 p%d" % v)
+        if v != SIZEMAX:
+            L.append("buf p10 c10 p%d" % v)
         L.append("buf p10 c10 R%d" % v)
         if v < 2 ** 34:
             L.append("buf e%d" % v)
             L.append("buf e100 e%d" % v)
-        L.append("buf p10 c%d" % v if v <= 10 or v > 2 ** 60 else "buf p%d c%d" % (v, v))
+        if v <= 10 or v == SIZEMAX:
+            L.append("buf p10 c%d" % v)          # (commit > prepared is a caller error, except SIZE_MAX: add-overflow assert)
+        elif v < 2 ** 32 - 70:
+            L.append("buf p%d c%d" % (v, v))
     n = 6000 if ctx.quick else 80000
     for _ in range(n):
         ops = []
@@ -973,6 +981,16 @@ def oracle(line, out):
     return None
 
 
+def proj_h2h(line, out):
+    """the part of the h2_recv_headers() outcome the model predicts: connection error raised by the
+    length / id / dependency checks before any HPACK decoding, or not"""
+    if out in ("abort", "bad-op"):
+        return out
+    o = kv(out)
+    early = o.get("rc") == "0" and o.get("goaway") == "1" and o.get("rused") == "0" and o.get("disc") == "0"
+    return "early" if early else "pass"
+
+
 def classify(line, out):
     t = line.split(" ")
     op = t[0]
@@ -1060,7 +1078,11 @@ def run(ctx):
     stream(ctx, "buffer-growth(buffer.c)", [a], "arith", gen_buf(ctx), oracle, classify)
     stream(ctx, "ck_realloc_u32", [a], "arith", gen_ckr(ctx), oracle, classify)
     stream(ctx, "h2-continuation(h2_recv_continuation)", [h2], "arith", gen_h2c(ctx), oracle, classify)
-    stream(ctx, "h2-headers(h2_recv_headers)", [h2], "arith", gen_h2h(ctx), oracle, classify)
+    hh = gen_h2h(ctx)
+    stream(ctx, "h2-headers(h2_recv_headers)", [h2], "arith", [l for l in hh if l.split(" ")[1:3] == ["0", "0"]], oracle, classify,
+           project=proj_h2h)
+    stream(ctx, "explore:h2-headers(trailers,after-goaway)", [h2], None, [l for l in hh if l.split(" ")[1:3] != ["0", "0"]],
+           oracle, classify)
     stream(ctx, "h2-data(h2_recv_data)", [h2], "arith", gen_h2d(ctx), oracle, classify)
     stream(ctx, "explore:h2-frames(h2_parse_frames)", [h2], None, gen_h2f(ctx), oracle, classify)
     stream(ctx, "explore:parsers(date,etag,forwarded,digest)", [px], None, gen_px(ctx), oracle, classify)
